@@ -81,8 +81,57 @@ fn per_variant<V: Variant>(r: &mut Report, ctx: &Ctx) {
     }
 }
 
+fn format_generated<V: Variant>(r: &mut Report, ctx: &Ctx) {
+    use crate::refmodel::Opts;
+    use crate::streams::Stream;
+    use tlsh::GeneratorType;
+    let name = format!("format-generated-{}", V::NAME);
+    if !ctx.want(&name) {
+        return;
+    }
+    r.section(
+        &name,
+        "hashes obtained from the generator (every prefix length of two streams, all 32 option settings) format exactly like the same value obtained from its bytes and from its own text: a hash's text does not depend on how the hash was obtained; non-trivial = Ok hashes",
+        "n in 0..=400 x 2 streams x 32 options",
+        true,
+        |s| {
+            for st in [Stream::Mixed, Stream::Alpha] {
+                let mut g = V::new_gen();
+                for n in 0..=400u64 {
+                    for o in Opts::all() {
+                        s.acc.evals += 1;
+                        s.acc.transitions += 4;
+                        if let Ok(h) = g.finalize_with_options(&real_opts(&o)) {
+                            s.acc.nontrivial += 1;
+                            let bytes = V::to_bytes(&h);
+                            let expect = String::from_utf8(crate::refmodel::ref_hex_format(&bytes, V::CK, true)).unwrap();
+                            let text = h.to_string();
+                            let via_bytes = V::from_slice(&bytes).map(|x| x.to_string());
+                            let via_text = text.parse::<V::Hash>().map(|x| x.to_string());
+                            if text != expect || via_bytes.as_ref().ok() != Some(&expect) || via_text.as_ref().ok() != Some(&expect) {
+                                s.acc.fail(n * 32 + o.index() as u64, &name, format!("{} generated hash ({} n={n}, options {}) formats as {text}, via bytes {:?}, via text {:?}, reference text {expect}", V::NAME, st.name(), o.describe(), via_bytes, via_text), json!({"kind": "format", "variant": V::NAME, "value": hex(&bytes)}));
+                                return;
+                            }
+                            s.acc.outcomes.insert_bytes(&bytes[..V::CK + 2]);
+                            if n == 300 && o.index() == 0 {
+                                s.acc.sample(n, || json!({"variant": V::NAME, "stream": st.name(), "n": n, "text": text}));
+                            }
+                        }
+                    }
+                    g.update(&[st.byte(n)]);
+                }
+            }
+        },
+    );
+}
+
 pub fn run(r: &mut Report, ctx: &Ctx) {
     quiet_panics();
+    format_generated::<VShort>(r, ctx);
+    format_generated::<VNormal>(r, ctx);
+    format_generated::<VNormalLC>(r, ctx);
+    format_generated::<VLong>(r, ctx);
+    format_generated::<VLongLC>(r, ctx);
     per_variant::<VShort>(r, ctx);
     per_variant::<VNormal>(r, ctx);
     per_variant::<VNormalLC>(r, ctx);
